@@ -14,7 +14,7 @@ Definition class_of (ty : Z) : option tclass :=
   else if ty =? LineTerminatorToken then Some KLt
   else if ty =? StringToken then Some KString
   else if (ty =? CommentToken) || (ty =? CommentLineTerminatorToken) then Some KComment
-  else if ty =? TemplateToken then Some KTemplate
+  else if (ty =? TemplateToken) || (ty =? TemplateStartToken) then Some KTemplate
   else if (256 <? ty) && (ty <? 512) then Some KNum
   else if ty =? PrivateIdentifierToken then Some KIdent
   else if 2048 <? ty then Some KIdent
@@ -68,22 +68,67 @@ Qed.
 
 (* the states between the tokens of a sequence: nothing pending, no open template, the previous token
    was not a numeric literal *)
-Definition seq_inv (pn : bool) (s : jst) : Prop :=
-  js_wf s /\ lstart (jcur s) = lpos (jcur s) /\ jtl s = [] /\ jpnl s = pn.
+Definition seq_inv (pn : bool) (lev : Z) (tl : list Z) (s : jst) : Prop :=
+  js_wf s /\ lstart (jcur s) = lpos (jcur s) /\ jlevel s = lev /\ jtl s = tl /\ jpnl s = pn.
+
+(* the brace level / open-template bookkeeping, as a specification of what each token type does;
+   None: the token type is impossible in that state ("}" that must resume a template, or a template
+   continuation where no template is waiting at this brace level) *)
+Definition step_state (ty lev : Z) (tl : list Z) : option (Z * list Z) :=
+  if (ty =? OpenParenToken) || (ty =? OpenBraceToken) then Some (lev + 1, tl)
+  else if ty =? CloseParenToken then Some (lev - 1, tl)
+  else if ty =? CloseBraceToken then
+    match tl with
+    | top :: _ => if lev - 1 =? top then None else Some (lev - 1, tl)
+    | [] => Some (lev - 1, tl)
+    end
+  else if ty =? TemplateStartToken then Some (lev + 1, lev :: tl)
+  else if ty =? TemplateMiddleToken then
+    match tl with
+    | top :: _ => if lev - 1 =? top then Some (lev - 1 + 1, tl) else None
+    | [] => None
+    end
+  else if ty =? TemplateEndToken then
+    match tl with
+    | top :: rest => if lev - 1 =? top then Some (lev - 1, rest) else None
+    | [] => None
+    end
+  else Some (lev, tl).
+
+Ltac step_simpl Hstep :=
+  unfold step_state, OpenParenToken, OpenBraceToken, CloseParenToken, CloseBraceToken, TemplateStartToken,
+    TemplateMiddleToken, TemplateEndToken, WhitespaceToken, LineTerminatorToken, StringToken, CommentToken,
+    CommentLineTerminatorToken, TemplateToken, PrivateIdentifierToken, IdentifierToken, EllipsisToken, DotToken,
+    CommaToken, SemicolonToken, ColonToken, OpenBracketToken, CloseBracketToken, ErrorToken in Hstep;
+  repeat match type of Hstep with
+  | context [if ?b then _ else _] =>
+      first [replace b with false in Hstep by lia | replace b with true in Hstep by lia]
+  end;
+  injection Hstep as <- <-.
 
 Ltac open_ext E R' Hsuf :=
   unfold next; cbv zeta; cbn [jcur jerr jplt jpnl jlevel jtl]; rewrite Hsuf; xfer2 E R'; use_conds.
 
-Ltac fin_ext z T R' Hw Hst Hsuf HR' :=
+Ltac fin_ext_gen z T R' Hw Hst Hsuf HR' :=
   match goal with
   | |- context [emit ?s1 (mv z ?k) ?ty] =>
       replace k with (len T) by lia;
       let He := fresh "He" in let Hw' := fresh "Hw'" in let Hs' := fresh "Hs'" in
       destruct (emit_at s1 z T R' ty Hw Hst Hsuf HR') as (He & Hw' & Hs'); rewrite He;
       eexists; split; [reflexivity|]; split; [|exact Hs'];
-      unfold seq_inv, js_wf; cbn [jcur jtl jpnl set_cur set_plt set_level set_err set_pnl is_num];
-      split; [exact Hw'|]; split; [reflexivity|]; split; reflexivity
+      unfold seq_inv, js_wf; cbn [jcur jtl jpnl jlevel set_cur set_plt set_level set_err set_pnl set_tl is_num];
+      split; [exact Hw'|]; split; [reflexivity|]; split; [reflexivity|]; split; reflexivity
   end.
+
+Ltac fin_ext z T R' Hw Hst Hsuf HR' Hstep := try step_simpl Hstep; fin_ext_gen z T R' Hw Hst Hsuf HR'.
+
+Lemma op_ty_range2 l n ty : op l = Ok (n, ty) -> ty = ErrorToken \/ 516 < ty < 2048.
+Proof.
+  intros H. unfold op in H. crunch H; injection H as _ <-;
+    unfold lookup_op, js_op_eq_tokens, js_op_op_eq_tokens, js_op_op_tokens, js_op_tokens;
+    repeat match goal with |- context [if ?c then _ else _] => destruct c end;
+    first [left; reflexivity | right; split; reflexivity].
+Qed.
 
 Lemma hd_cons_nonempty R' : R' <> [] -> exists c R'', R' = c :: R'' /\ hd 0 R' = c.
 Proof. destruct R' as [|c R'']; [congruence|]. eauto. Qed.
@@ -128,13 +173,14 @@ Proof.
   exfalso. assert (n = 0) by congruence. lia.
 Qed.
 
-Lemma next_extend s pn ty T R' cls :
+Lemma next_extend s pn lev tl lev' tl' ty T R' cls :
   relexes id_start id_cont is_zs ty T -> class_of ty = Some cls -> text_ok cls T -> no_trunc T = true ->
-  seq_inv pn s -> (pn = true -> cls <> KIdent) -> suffix (jcur s) = T ++ R' -> R' <> [] -> stop_for cls T (hd 0 R') ->
-  exists s', next id_start id_cont is_zs s = Ok ((ty, Some T), s') /\ seq_inv (is_num cls) s' /\ suffix (jcur s') = R'.
+  seq_inv pn lev tl s -> step_state ty lev tl = Some (lev', tl') ->
+  (pn = true -> cls <> KIdent) -> suffix (jcur s) = T ++ R' -> R' <> [] -> stop_for cls T (hd 0 R') ->
+  exists s', next id_start id_cont is_zs s = Ok ((ty, Some T), s') /\ seq_inv (is_num cls) lev' tl' s' /\ suffix (jcur s') = R'.
 Proof.
-  intros (s2 & Hn & Hp & _) Hcls Htxt Hnt (Hw & Hst & Htl & Hpnl) Hpn Hsuf HR' Hstop.
-  destruct s as [z e0 plt0 pnl0 lev tl]. unfold js_wf in Hw. cbn [jcur jtl jpnl] in *. subst tl pnl0.
+  intros (s2 & Hn & Hp & _) Hcls Htxt Hnt (Hw & Hst & Hlev & Htl & Hpnl) Hstep Hpn Hsuf HR' Hstop.
+  destruct s as [z e0 plt0 pnl0 lev0 tl0]. unfold js_wf in Hw. cbn [jcur jtl jpnl jlevel] in *. subst tl0 pnl0 lev0.
   assert (HT : 0 < len T).
   { destruct T; [|rewrite len_cons; pose proof (len_nonneg T); lia]. exfalso. vm_compute in Hn. discriminate. }
   assert (H0R : [0] <> []) by discriminate.
@@ -152,14 +198,15 @@ Proof.
            assert (Hne : t <> ErrorToken) by (intros ->; discriminate);
            assert (cls = KNum)
              by (unfold class_of, WhitespaceToken, LineTerminatorToken, PrivateIdentifierToken, ErrorToken,
-                   CommentToken, CommentLineTerminatorToken, StringToken, TemplateToken in *;
+                   CommentToken, CommentLineTerminatorToken, StringToken, TemplateToken, TemplateStartToken in *;
                  repeat match type of Hcls with context [if ?b then _ else _] => destruct b eqn:? end; try lia; congruence);
            subst cls; destruct Hstop as (S1 & S2);
            destruct (hd_cons_nonempty R' HR') as (c & R'' & HRc & Hc); rewrite Hc in *; subst R';
            pose proof (numeric_exchange c R'' S1 S2 T [0] _ _ _ Hnt H0R HT E0 eq_refl Hne) as E0';
            open_ext E (c :: R'') Hsuf; rewrite E0'; cbn [rbind];
            replace (negb (t =? ErrorToken)) with true by (unfold ErrorToken in *; lia); cbn [orb]; cbv iota;
-           fin_ext z T (c :: R'') Hw Hst Hsuf HR'
+           unfold ErrorToken in Hnty, Hne;
+           fin_ext z T (c :: R'') Hw Hst Hsuf HR' Hstep
        end);
   (* HTML-like comments are not covered: the text of a covered comment starts with "/*" *)
   try (match goal with
@@ -184,7 +231,8 @@ Proof.
                  | destruct (hd_cons_nonempty R' HR') as (c & R'' & HRc & Hc); rewrite Hc in Hstop; subst R';
                    destruct Hstop as [Hstop|Hstop]; [rewrite Htxt in Hstop; discriminate|];
                    apply (comment_exchange_line T [0] c R'' _ _ _ _ H0R Hnt Hstop E0 eq_refl Htxt) ]);
-           open_ext E R' Hsuf; rewrite E0'; cbn [rbind]; use_conds; destruct sl; fin_ext z T R' Hw Hst Hsuf HR'
+           unfold ErrorToken, CommentToken, CommentLineTerminatorToken in Hcty, Hne;
+           open_ext E R' Hsuf; rewrite E0'; cbn [rbind]; use_conds; destruct sl; fin_ext z T R' Hw Hst Hsuf HR' Hstep
        end);
   (* strings *)
   try (match goal with
@@ -195,22 +243,21 @@ Proof.
                  assert (t0 = a) by congruence; lia);
            assert (Hne : t <> ErrorToken)
              by (intros ->; discriminate);
-           assert (cls = KString)
-             by (destruct (string_tok_ty _ _ _ _ E0) as [->| ->]; [congruence|injection Hcls as <-; reflexivity]);
-           subst cls;
+           destruct (string_tok_ty _ _ _ _ E0) as [Ht|Ht]; [exfalso; apply Hne; exact Ht|];
+           rewrite Ht in *; injection Hcls as <-;
            pose proof (string_tok_exchange T [0] R' _ _ _ H0R HR' E0 eq_refl Hne Hq) as E0';
-           open_ext E R' Hsuf; rewrite E0'; cbn [rbind]; fin_ext z T R' Hw Hst Hsuf HR'
+           open_ext E R' Hsuf; rewrite E0'; cbn [rbind]; fin_ext z T R' Hw Hst Hsuf HR' Hstep
        end);
   (* templates without substitution *)
   try (match goal with
-       | E0 : tpl_loop _ (skipz 1 (T ++ [0])) = Ok (?n, ?o), Hty0 : ty = TemplateToken |- _ =>
+       | E0 : tpl_loop _ (skipz 1 (T ++ [0])) = Ok (?n, ?o), Hty0 : ty = _ |- _ =>
            assert (1 + n = len T) by lia; subst ty; injection Hcls as <-;
            rewrite skipz_app_le in E0 by lia;
            pose proof (tpl_loop_exchange R' HR' _ _ _ _ _ H0R E0 ltac:(rewrite len_skipz by lia; lia) ltac:(lia)
                          (length (T ++ R')) ltac:(pose proof (length_skipz_le 1 T); rewrite app_length;
                                                    pose proof (nonempty_len R' HR'); unfold len in *; lia)) as E0';
            open_ext E R' Hsuf; unfold template; rewrite Hsuf; xfer2 E R'; rewrite skipz_app_le by lia; rewrite E0';
-           cbn [rbind]; use_conds; cbn [jtl set_tl]; fin_ext z T R' Hw Hst Hsuf HR'
+           cbn [rbind]; use_conds; cbn [jtl set_tl]; fin_ext z T R' Hw Hst Hsuf HR' Hstep
        end).
   - (* ASCII whitespace *)
     subst ty. injection Hcls as <-. destruct Hstop as (S1 & S2 & S3 & S4 & S5).
@@ -226,7 +273,7 @@ Proof.
                   (no_trunc_skipz' 1 T Hnt ltac:(lia)) H0R E0 (length (skipz 1 T ++ R'))
                   ltac:(rewrite app_length; pose proof (nonempty_len R' HR'); unfold len in *; lia)) as E0'.
     open_ext E R' Hsuf. unfold repl. rewrite skipz_app_le by lia. rewrite E0'. cbn [rbind].
-    rewrite len_skipz by lia. fin_ext z T R' Hw Hst Hsuf HR'.
+    rewrite len_skipz by lia. fin_ext z T R' Hw Hst Hsuf HR' Hstep.
   - (* LF / CR *)
     subst ty. injection Hcls as <-. destruct Hstop as (S1 & S2 & S3).
     destruct (hd_cons_nonempty R' HR') as (c & R'' & HRc & Hc). rewrite Hc in *.
@@ -236,17 +283,17 @@ Proof.
       reflexivity. }
     assert (Hm : a0 = len T - 1) by lia. rewrite Hm in E0.
     pose proof (repl_exchange_all lt1 R' T 1 (lt1_local2 R' HR' ltac:(rewrite Hc; lia)) Hstop0 lt1_nonneg' HR' Hnt ltac:(lia) E0) as E0'.
-    open_ext E R' Hsuf. rewrite E0'. cbn [rbind]. fin_ext z T R' Hw Hst Hsuf HR'.
+    open_ext E R' Hsuf. rewrite E0'. cbn [rbind]. fin_ext z T R' Hw Hst Hsuf HR' Hstep.
   - (* operators *)
     assert (z0 = len T) by lia. subst z0 ty.
-    destruct (op_ty_range _ _ _ E0) as [->|Hr]; [discriminate|].
+    destruct (op_ty_range2 _ _ _ E0) as [->|Hr]; [discriminate|].
     assert (cls = KPunct).
-    { unfold class_of, WhitespaceToken, LineTerminatorToken, PrivateIdentifierToken, StringToken, CommentToken, CommentLineTerminatorToken, TemplateToken in Hcls.
+    { unfold class_of, WhitespaceToken, LineTerminatorToken, PrivateIdentifierToken, StringToken, CommentToken, CommentLineTerminatorToken, TemplateToken, TemplateStartToken in Hcls.
       repeat match type of Hcls with context [if ?b then _ else _] => destruct b eqn:? end; try lia; congruence. }
     subst cls. apply (stop_punct_op T [0] a _ E ltac:(unfold punct1, is_op_start in *; lia)) in Hstop.
     destruct (hd_cons_nonempty R' HR') as (c & R'' & HRc & Hc). rewrite Hc in *. subst R'.
     pose proof (op_exchange T [0] c R'' z1 H0R E0 Hstop) as E0'.
-    open_ext E (c :: R'') Hsuf. unfold op_or_err. rewrite Hsuf, E0'. cbn [rbind]. use_conds. fin_ext z T (c :: R'') Hw Hst Hsuf HR'.
+    open_ext E (c :: R'') Hsuf. unfold op_or_err. rewrite Hsuf, E0'. cbn [rbind]. use_conds. fin_ext z T (c :: R'') Hw Hst Hsuf HR' Hstep.
   - (* "..." *)
     subst ty. injection Hcls as <-. apply (stop_punct_op T [0] a _ E ltac:(unfold punct1; lia)) in Hstop.
     assert (z1 = 0) by (unfold mark, mv, lx_init in Eb3; cbn [lpos lstart] in Eb3; lia). subst z1.
@@ -272,7 +319,7 @@ Proof.
     rewrite mv_0. replace (mark z =? 0) with true by (unfold mark; lia). cbn [negb]. cbv iota.
     rewrite suffix_mv by (destruct Hw as (_ & ? & _); lia). rewrite Hsuf. cbn [app]. rewrite skipz_1_cons.
     rewrite pkl_cons_0, pkl_1. cbn [rbind]. change (46 =? 46) with true. cbv iota. cbn [rbind].
-    rewrite mv_mv. change (1 + 2) with (len [46; 46; 46]). fin_ext z [46; 46; 46] (c :: R'') Hw Hst Hsuf HR'.
+    rewrite mv_mv. change (1 + 2) with (len [46; 46; 46]). fin_ext z [46; 46; 46] (c :: R'') Hw Hst Hsuf HR' Hstep.
   - (* "." *)
     subst ty. injection Hcls as <-. apply (stop_punct_op T [0] a _ E ltac:(unfold punct1; lia)) in Hstop.
     assert (z1 = 0) by (unfold mark, mv, lx_init in Eb3; cbn [lpos lstart] in Eb3; lia). subst z1.
@@ -292,31 +339,31 @@ Proof.
     rewrite mv_0. replace (mark z =? 0) with true by (unfold mark; lia). cbn [negb]. cbv iota.
     rewrite suffix_mv by (destruct Hw as (_ & ? & _); lia). rewrite Hsuf. cbn [app]. rewrite skipz_1_cons.
     rewrite pkl_cons_0. cbn [rbind]. replace (c =? 46) with false by lia. cbv iota. cbn [rbind].
-    change 1 with (len [46]) at 1. fin_ext z [46] (c :: R'') Hw Hst Hsuf HR'.
+    change 1 with (len [46]) at 1. fin_ext z [46] (c :: R'') Hw Hst Hsuf HR' Hstep.
   - (* PUNCT *)
     subst ty. injection Hcls as <-.
     pose proof (single_byte T [0] a ltac:(lia) E) as HT1. subst T.
-    open_ext E R' Hsuf. change 1 with (len [a]) at 1. fin_ext z [a] R' Hw Hst Hsuf HR'.
+    open_ext E R' Hsuf. change 1 with (len [a]) at 1. fin_ext z [a] R' Hw Hst Hsuf HR' Hstep.
   - (* PUNCT *)
     subst ty. injection Hcls as <-.
     pose proof (single_byte T [0] a ltac:(lia) E) as HT1. subst T.
-    open_ext E R' Hsuf. change 1 with (len [a]) at 1. fin_ext z [a] R' Hw Hst Hsuf HR'.
+    open_ext E R' Hsuf. change 1 with (len [a]) at 1. fin_ext z [a] R' Hw Hst Hsuf HR' Hstep.
   - (* PUNCT *)
     subst ty. injection Hcls as <-.
     pose proof (single_byte T [0] a ltac:(lia) E) as HT1. subst T.
-    open_ext E R' Hsuf. change 1 with (len [a]) at 1. fin_ext z [a] R' Hw Hst Hsuf HR'.
+    open_ext E R' Hsuf. change 1 with (len [a]) at 1. fin_ext z [a] R' Hw Hst Hsuf HR' Hstep.
   - (* PUNCT *)
     subst ty. injection Hcls as <-.
     pose proof (single_byte T [0] a ltac:(lia) E) as HT1. subst T.
-    open_ext E R' Hsuf. change 1 with (len [a]) at 1. fin_ext z [a] R' Hw Hst Hsuf HR'.
+    open_ext E R' Hsuf. change 1 with (len [a]) at 1. fin_ext z [a] R' Hw Hst Hsuf HR' Hstep.
   - (* '/' and '/=' *)
     assert (z2 = ErrorToken /\ z0 = ENone) as (-> & ->) by (unfold ErrorToken, ENone in *; lia).
     destruct (comment_err_shape _ _ _ E0) as (c1 & Ec1 & E47 & E42 & -> & ->).
     rewrite mv_0 in E1. rewrite suffix_init in E1.
     assert (z3 = len T) by lia. subst z3 ty.
-    destruct (op_ty_range _ _ _ E1) as [->|Hr]; [discriminate|].
+    destruct (op_ty_range2 _ _ _ E1) as [->|Hr]; [discriminate|].
     assert (cls = KPunct).
-    { unfold class_of, WhitespaceToken, LineTerminatorToken, PrivateIdentifierToken, StringToken, CommentToken, CommentLineTerminatorToken, TemplateToken in Hcls.
+    { unfold class_of, WhitespaceToken, LineTerminatorToken, PrivateIdentifierToken, StringToken, CommentToken, CommentLineTerminatorToken, TemplateToken, TemplateStartToken in Hcls.
       repeat match type of Hcls with context [if ?b then _ else _] => destruct b eqn:? end; try lia; congruence. }
     subst cls. apply (stop_punct_op T [0] a _ E ltac:(unfold punct1, is_op_start in *; lia)) in Hstop.
     destruct (hd_cons_nonempty R' HR') as (c & R'' & HRc & Hc). rewrite Hc in *. subst R'.
@@ -328,39 +375,47 @@ Proof.
       - rewrite pkl_1. cbn [rbind]. replace (c =? 47) with false by lia. replace (c =? 42) with false by lia. reflexivity.
       - rewrite pkl_1 in Ec1 |- *. cbn [rbind]. assert (t1 = c1) by congruence. subst t1. rewrite E47, E42. reflexivity. }
     open_ext E (c :: R'') Hsuf. rewrite E0'. cbn [rbind]. cbn [negb Z.eqb ErrorToken ENone orb]. cbv iota.
-    unfold op_or_err. rewrite mv_0, Hsuf, E1'. cbn [rbind]. use_conds. fin_ext z T (c :: R'') Hw Hst Hsuf HR'.
+    unfold op_or_err. rewrite mv_0, Hsuf, E1'. cbn [rbind]. use_conds. fin_ext z T (c :: R'') Hw Hst Hsuf HR' Hstep.
   - (* PUNCT *)
     subst ty. injection Hcls as <-.
     pose proof (single_byte T [0] a ltac:(lia) E) as HT1. subst T.
-    open_ext E R' Hsuf. change 1 with (len [a]) at 1. fin_ext z [a] R' Hw Hst Hsuf HR'.
-  - (* "}" with no open template *)
+    open_ext E R' Hsuf. change 1 with (len [a]) at 1. fin_ext z [a] R' Hw Hst Hsuf HR' Hstep.
+  - (* "}" that does not resume a template *)
     subst ty. injection Hcls as <-.
     pose proof (single_byte T [0] a ltac:(lia) E) as HT1. subst T.
-    open_ext E R' Hsuf. cbn [jtl set_level]. change 1 with (len [a]) at 1. fin_ext z [a] R' Hw Hst Hsuf HR'.
+    assert (Hs14 : step_state CloseBraceToken lev tl =
+                   match tl with top :: _ => if lev - 1 =? top then None else Some (lev - 1, tl) | [] => Some (lev - 1, tl) end)
+      by reflexivity.
+    rewrite Hs14 in Hstep. clear Hs14.
+    open_ext E R' Hsuf. cbn [jtl set_level jlevel].
+    destruct tl as [|top rest].
+    + injection Hstep as <- <-. change 1 with (len [a]) at 1. fin_ext_gen z [a] R' Hw Hst Hsuf HR'.
+    + destruct (lev - 1 =? top) eqn:Et; [discriminate|]. injection Hstep as <- <-.
+      change 1 with (len [a]) at 1. fin_ext_gen z [a] R' Hw Hst Hsuf HR'.
   - (* PUNCT *)
     subst ty. injection Hcls as <-.
     pose proof (single_byte T [0] a ltac:(lia) E) as HT1. subst T.
-    open_ext E R' Hsuf. change 1 with (len [a]) at 1. fin_ext z [a] R' Hw Hst Hsuf HR'.
+    open_ext E R' Hsuf. change 1 with (len [a]) at 1. fin_ext z [a] R' Hw Hst Hsuf HR' Hstep.
   - (* PUNCT *)
     subst ty. injection Hcls as <-.
     pose proof (single_byte T [0] a ltac:(lia) E) as HT1. subst T.
-    open_ext E R' Hsuf. change 1 with (len [a]) at 1. fin_ext z [a] R' Hw Hst Hsuf HR'.
+    open_ext E R' Hsuf. change 1 with (len [a]) at 1. fin_ext z [a] R' Hw Hst Hsuf HR' Hstep.
   - (* PUNCT *)
     subst ty. injection Hcls as <-.
     pose proof (single_byte T [0] a ltac:(lia) E) as HT1. subst T.
-    open_ext E R' Hsuf. change 1 with (len [a]) at 1. fin_ext z [a] R' Hw Hst Hsuf HR'.
+    open_ext E R' Hsuf. change 1 with (len [a]) at 1. fin_ext z [a] R' Hw Hst Hsuf HR' Hstep.
   - (* '<' and '-' operators *)
     assert (z0 = len T) by lia. subst z0 ty.
-    destruct (op_ty_range _ _ _ E1) as [->|Hr]; [discriminate|].
+    destruct (op_ty_range2 _ _ _ E1) as [->|Hr]; [discriminate|].
     assert (cls = KPunct).
-    { unfold class_of, WhitespaceToken, LineTerminatorToken, PrivateIdentifierToken, StringToken, CommentToken, CommentLineTerminatorToken, TemplateToken in Hcls.
+    { unfold class_of, WhitespaceToken, LineTerminatorToken, PrivateIdentifierToken, StringToken, CommentToken, CommentLineTerminatorToken, TemplateToken, TemplateStartToken in Hcls.
       repeat match type of Hcls with context [if ?b then _ else _] => destruct b eqn:? end; try lia; congruence. }
     subst cls. apply (stop_punct_op T [0] a _ E ltac:(unfold punct1, is_op_start in *; lia)) in Hstop.
     destruct (hd_cons_nonempty R' HR') as (c & R'' & HRc & Hc). rewrite Hc in *. subst R'.
     pose proof (op_exchange T [0] c R'' z1 H0R E1 Hstop) as E1'.
     pose proof (html_decline2 plt0 T c R'' z1 E1 Hstop) as E0'.
     open_ext E (c :: R'') Hsuf. rewrite E0'. cbn [rbind]. change (0 <? 0) with false. cbv iota.
-    unfold op_or_err. rewrite Hsuf, E1'. cbn [rbind]. use_conds. fin_ext z T (c :: R'') Hw Hst Hsuf HR'.
+    unfold op_or_err. rewrite Hsuf, E1'. cbn [rbind]. use_conds. fin_ext z T (c :: R'') Hw Hst Hsuf HR' Hstep.
   - (* private identifiers *)
     subst ty. injection Hcls as <-. destruct Hstop as (S1 & S2 & S3).
     destruct (hd_cons_nonempty R' HR') as (c & R'' & HRc & Hc). rewrite Hc in *.
@@ -372,14 +427,14 @@ Proof.
     pose proof (ident_exchange id_start id_cont R' HR' _ _ (no_trunc_skipz' 1 T Hnt ltac:(lia)) H0R E0 ltac:(lia) Hstop0) as E0'.
     open_ext E R' Hsuf. rewrite suffix_mv by (destruct Hw as (_ & ? & _); lia). rewrite Hsuf.
     rewrite skipz_app_le by lia. rewrite E0'. cbn [rbind]. rewrite <- Ha0. use_conds. rewrite mv_mv.
-    fin_ext z T R' Hw Hst Hsuf HR'.
+    fin_ext z T R' Hw Hst Hsuf HR' Hstep.
   - (* keywords *)
     assert (a0 = len T) by lia. subst a0.
     apply lexeme_slice in Em. rewrite slice_mv in Em by reflexivity. rewrite suffix_init, firstz_len_app in Em. subst l ty.
+    pose proof (lookup_kw_in _ _ _ Em0) as Hin. pose proof kw_types as K. rewrite forallb_forall in K.
+    specialize (K _ Hin). cbn [snd] in K. clear Hin.
     assert (cls = KIdent).
-    { pose proof (lookup_kw_in _ _ _ Em0) as Hin. pose proof kw_types as K. rewrite forallb_forall in K.
-      specialize (K _ Hin). cbn [snd] in K.
-      unfold class_of, WhitespaceToken, LineTerminatorToken, PrivateIdentifierToken, StringToken, CommentToken, CommentLineTerminatorToken, TemplateToken in Hcls.
+    { unfold class_of, WhitespaceToken, LineTerminatorToken, PrivateIdentifierToken, StringToken, CommentToken, CommentLineTerminatorToken, TemplateToken, TemplateStartToken in Hcls.
       repeat match type of Hcls with context [if ?b then _ else _] => destruct b eqn:? end; try lia; congruence. }
     subst cls. destruct Hstop as (S1 & S2 & S3).
     destruct (hd_cons_nonempty R' HR') as (c & R'' & HRc & Hc). rewrite Hc in *.
@@ -392,7 +447,7 @@ Proof.
     assert (Hlex : lexeme (mv z (len T)) = Some T).
     { destruct (emit_at (mkJst z 0 false false 0 []) z T R' 0 Hw Hst Hsuf HR') as (He & _ & _).
       unfold emit, shift in He. destruct (lexeme (mv z (len T))) as [w|]; [|discriminate]. congruence. }
-    rewrite Hlex, Em0. fin_ext z T R' Hw Hst Hsuf HR'.
+    rewrite Hlex, Em0. fin_ext z T R' Hw Hst Hsuf HR' Hstep.
   - (* identifiers *)
     assert (a0 = len T) by lia. subst a0.
     apply lexeme_slice in Em. rewrite slice_mv in Em by reflexivity. rewrite suffix_init, firstz_len_app in Em. subst l ty.
@@ -407,7 +462,7 @@ Proof.
     assert (Hlex : lexeme (mv z (len T)) = Some T).
     { destruct (emit_at (mkJst z 0 false false 0 []) z T R' 0 Hw Hst Hsuf HR') as (He & _ & _).
       unfold emit, shift in He. destruct (lexeme (mv z (len T))) as [w|]; [|discriminate]. congruence. }
-    rewrite Hlex, Em0. fin_ext z T R' Hw Hst Hsuf HR'.
+    rewrite Hlex, Em0. fin_ext z T R' Hw Hst Hsuf HR' Hstep.
   - (* whitespace that starts with a non-ASCII space *)
     subst ty. injection Hcls as <-. destruct Hstop as (S1 & S2 & S3 & S4 & S5).
     destruct (hd_cons_nonempty R' HR') as (c & R'' & HRc & Hc). rewrite Hc in *.
@@ -429,7 +484,7 @@ Proof.
     assert (Hm : a2 = len T - a1) by lia. rewrite Hm in E2.
     pose proof (repl_exchange_all _ R' T a1 (ws1_local2 is_zs R' HR') Hstop0 (ws1_nonneg is_zs) HR' Hnt ltac:(lia) E2) as E2'.
     open_ext E R' Hsuf. rewrite E0'. cbn [rbind]. change (0 <? 0) with false. cbv iota. use_conds.
-    rewrite E1'. cbn [rbind]. use_conds. rewrite E2'. cbn [rbind]. fin_ext z T R' Hw Hst Hsuf HR'.
+    rewrite E1'. cbn [rbind]. use_conds. rewrite E2'. cbn [rbind]. fin_ext z T R' Hw Hst Hsuf HR' Hstep.
   - (* U+2028 / U+2029 *)
     subst ty. injection Hcls as <-. destruct Hstop as (S1 & S2 & S3).
     destruct (hd_cons_nonempty R' HR') as (c & R'' & HRc & Hc). rewrite Hc in *.
@@ -456,7 +511,81 @@ Proof.
     pose proof (repl_exchange_all lt1 R' T 3 (lt1_local2 R' HR' ltac:(rewrite Hc; lia)) Hstop0 lt1_nonneg' HR' Hnt ltac:(lia) E3) as E3'.
     open_ext E R' Hsuf. rewrite E0'. cbn [rbind]. change (0 <? 0) with false. cbv iota. use_conds.
     rewrite E1'. cbn [rbind]. change (0 <? 0) with false. cbv iota.
-    rewrite E2'. cbn [rbind]. change (0 <? 3) with true. cbv iota. rewrite E3'. cbn [rbind]. fin_ext z T R' Hw Hst Hsuf HR'.
+    rewrite E2'. cbn [rbind]. change (0 <? 3) with true. cbv iota. rewrite E3'. cbn [rbind]. fin_ext z T R' Hw Hst Hsuf HR' Hstep.
+Qed.
+
+(* --- template continuations ------------------------------------------------------------------------ *)
+(* a template head "`body${" (or a whole template "`body`") lexed on its own: what the body loop returned *)
+Lemma tpl_of_relex ty0 body : relexes id_start id_cont is_zs ty0 (96 :: body) ->
+  ty0 = TemplateStartToken \/ ty0 = TemplateToken ->
+  tpl_loop (length ((96 :: body) ++ [0])) (body ++ [0]) = Ok (len body, if ty0 =? TemplateStartToken then 1 else 0).
+Proof.
+  intros (s2 & Hn & Hp & _) Hty.
+  unfold next, js_init in Hn. cbv zeta in Hn. cbn [jcur jerr jplt jpnl jlevel jtl] in Hn.
+  unfold op_or_err, template in Hn. rewrite ?suffix_mv in Hn by (cbn; lia). rewrite suffix_init in Hn.
+  destruct (pkl ((96 :: body) ++ [0]) 0) as [a| |] eqn:E; cbn [rbind] in Hn; try discriminate.
+  assert (a = 96) by (cbn [app] in E; rewrite pkl_cons_0 in E; congruence). subst a.
+  crunch Hn; try discriminate; try (exfalso; unfold is_op_start in *; lia);
+    try (apply err_path_ty in Hn; destruct Hty; subst; discriminate);
+    (apply emit_inv in Hn; destruct Hn as (Hty0 & _ & Hs'); subst s2; cbn [jcur set_cur skip mv lpos lx_init] in Hp);
+    try (exfalso; destruct Hty; subst ty0; discriminate).
+  all: rewrite len_cons in Hp; change (skipz 1 ((96 :: body) ++ [0])) with (body ++ [0]) in *.
+  - assert (z = len body) by lia. subst z. assert (z0 = 0) by lia. subst z0.
+    destruct Hty as [->| ->]; [discriminate|]. exact E0.
+  - assert (z = len body) by lia. subst z. assert (z0 = 1) by lia. subst z0.
+    destruct Hty as [->| ->]; [|discriminate]. exact E0.
+Qed.
+
+(* "}body${" / "}body`" in a state where a template is waiting at this brace level *)
+Lemma next_cont s pn lev tl lev' tl' ty ty0 body R' :
+  (ty = TemplateMiddleToken /\ ty0 = TemplateStartToken) \/ (ty = TemplateEndToken /\ ty0 = TemplateToken) ->
+  relexes id_start id_cont is_zs ty0 (96 :: body) ->
+  seq_inv pn lev tl s -> step_state ty lev tl = Some (lev', tl') ->
+  suffix (jcur s) = (125 :: body) ++ R' -> R' <> [] ->
+  exists s', next id_start id_cont is_zs s = Ok ((ty, Some (125 :: body)), s') /\
+    seq_inv false lev' tl' s' /\ suffix (jcur s') = R'.
+Proof.
+  intros Hk Hre (Hw & Hst & Hlev & Htl & Hpnl) Hstep Hsuf HR'.
+  destruct s as [z e0 plt0 pnl0 lev0 tl0]. unfold js_wf in Hw. cbn [jcur jtl jpnl jlevel] in *. subst tl0 pnl0 lev0.
+  assert (Hty0 : ty0 = TemplateStartToken \/ ty0 = TemplateToken) by (destruct Hk as [(_ & ->)|(_ & ->)]; auto).
+  pose proof (tpl_of_relex ty0 body Hre Hty0) as Htp.
+  assert (H0R : [0] <> []) by discriminate.
+  assert (Ho2 : (if ty0 =? TemplateStartToken then 1 else 0) <> 2) by (destruct (ty0 =? TemplateStartToken); discriminate).
+  pose proof (tpl_loop_exchange R' HR' _ _ _ _ _ H0R Htp eq_refl Ho2
+                (length ((125 :: body) ++ R'))
+                ltac:(cbn [app length]; rewrite app_length; pose proof (nonempty_len R' HR'); unfold len in *; lia)) as Htp'.
+  (* a template is waiting at this level *)
+  assert (Htop : exists top rest, tl = top :: rest /\ (lev - 1 =? top) = true).
+  { unfold step_state in Hstep. destruct Hk as [(-> & _)|(-> & _)]; cbn in Hstep;
+      (destruct tl as [|top rest]; [discriminate|]); exists top, rest; (split; [reflexivity|]);
+      destruct (lev - 1 =? top); [reflexivity|discriminate|reflexivity|discriminate]. }
+  destruct Htop as (top & rest & -> & Htop).
+  unfold next. cbv zeta. cbn [jcur jerr jplt jpnl jlevel jtl]. rewrite Hsuf. cbn [app]. rewrite pkl_cons_0. cbn [rbind].
+  change ((125 =? 32) || (125 =? 9) || (125 =? 11) || (125 =? 12)) with false. cbv iota.
+  change ((125 =? 10) || (125 =? 13)) with false. cbv iota. change (is_op_start 125) with false. cbv iota.
+  change ((48 <=? 125) && (125 <=? 57) || (125 =? 46)) with false. cbv iota.
+  change (125 =? 44) with false. change (125 =? 59) with false. change (125 =? 40) with false. change (125 =? 41) with false.
+  change (125 =? 47) with false. change (125 =? 123) with false. change (125 =? 125) with true. cbv iota.
+  cbn [jtl set_level jlevel]. rewrite Htop.
+  unfold template. change (suffix z) with (suffix z). rewrite Hsuf. cbn [app]. rewrite pkl_cons_0. cbn [rbind].
+  change (125 =? 125) with true. rewrite skipz_1_cons. cbn [app] in Htp'. rewrite Htp'. cbn [rbind].
+  assert (Hsuf' : suffix z = (125 :: body) ++ R') by exact Hsuf.
+  assert (Hlen : 1 + len body = len (125 :: body)) by (rewrite len_cons; reflexivity).
+  destruct Hk as [(-> & ->)|(-> & ->)].
+  - change (TemplateStartToken =? TemplateStartToken) with true. cbv iota. change (1 =? 0) with false. change (1 =? 1) with true. cbv iota.
+    rewrite Hlen.
+    match goal with |- context [emit ?s1 (mv z _) ?t] =>
+      destruct (emit_at s1 z (125 :: body) R' t Hw Hst Hsuf' HR') as (He & Hw' & Hs') end.
+    rewrite He. eexists. split; [reflexivity|]. split; [|exact Hs'].
+    unfold step_state in Hstep. cbn in Hstep. rewrite Htop in Hstep. injection Hstep as <- <-.
+    unfold seq_inv, js_wf. cbn [jcur jtl jpnl jlevel set_cur set_level]. split; [exact Hw'|]. repeat split; reflexivity.
+  - change (TemplateToken =? TemplateStartToken) with false. cbv iota. change (0 =? 0) with true. cbv iota.
+    cbn [jtl set_level]. rewrite Hlen.
+    match goal with |- context [emit ?s1 (mv z _) ?t] =>
+      destruct (emit_at s1 z (125 :: body) R' t Hw Hst Hsuf' HR') as (He & Hw' & Hs') end.
+    rewrite He. eexists. split; [reflexivity|]. split; [|exact Hs'].
+    unfold step_state in Hstep. cbn in Hstep. rewrite Htop in Hstep. injection Hstep as <- <-.
+    unfold seq_inv, js_wf. cbn [jcur jtl jpnl jlevel set_cur set_level set_tl]. split; [exact Hw'|]. repeat split; reflexivity.
 Qed.
 
 (* a token sequence: types and texts *)
@@ -465,39 +594,55 @@ Definition texts (ts : list tokspec) : list Z := concat (map snd ts).
 (* the byte that follows a token: the first byte of the rest of the sequence, or the terminator *)
 Definition follower (rest : list tokspec) : Z := hd 0 (texts rest ++ [0]).
 
-(* seq_ok pn ts: pn says that the token before ts is a numeric literal (then ts must not start with an
-   identifier: "1a" is a lexical error) *)
-Inductive seq_ok : bool -> list tokspec -> Prop :=
-| sq_nil pn : seq_ok pn []
-| sq_cons pn ty T rest cls :
+(* seq_ok pn lev tl ts: ts is a token sequence of the covered classes that can be lexed from a state
+   with brace level lev and open templates tl; pn says that the token before ts is a numeric literal
+   (then ts must not start with an identifier: "1a" is a lexical error) *)
+Inductive seq_ok : bool -> Z -> list Z -> list tokspec -> Prop :=
+| sq_nil pn lev tl : seq_ok pn lev tl []
+| sq_cons pn lev tl lev' tl' ty T rest cls :
     relexes id_start id_cont is_zs ty T -> class_of ty = Some cls -> text_ok cls T -> no_trunc T = true ->
-    (pn = true -> cls <> KIdent) ->
-    stop_for cls T (follower rest) -> seq_ok (is_num cls) rest -> seq_ok pn ((ty, T) :: rest).
+    (pn = true -> cls <> KIdent) -> step_state ty lev tl = Some (lev', tl') ->
+    stop_for cls T (follower rest) -> seq_ok (is_num cls) lev' tl' rest -> seq_ok pn lev tl ((ty, T) :: rest)
+| sq_cont pn lev tl lev' tl' ty ty0 body rest :
+    (ty = TemplateMiddleToken /\ ty0 = TemplateStartToken) \/ (ty = TemplateEndToken /\ ty0 = TemplateToken) ->
+    relexes id_start id_cont is_zs ty0 (96 :: body) -> step_state ty lev tl = Some (lev', tl') ->
+    seq_ok false lev' tl' rest -> seq_ok pn lev tl ((ty, 125 :: body) :: rest).
 
-Lemma seq_run pn ts : seq_ok pn ts -> forall s, seq_inv pn s -> suffix (jcur s) = texts ts ++ [0] ->
-  exists s' pn', next_n id_start id_cont is_zs (length ts) s = Ok (map (fun t => (fst t, Some (snd t))) ts, s') /\
-    seq_inv pn' s' /\ suffix (jcur s') = [0].
+Lemma seq_run pn lev tl ts : seq_ok pn lev tl ts -> forall s, seq_inv pn lev tl s -> suffix (jcur s) = texts ts ++ [0] ->
+  exists s' pn' lev' tl', next_n id_start id_cont is_zs (length ts) s = Ok (map (fun t => (fst t, Some (snd t))) ts, s') /\
+    seq_inv pn' lev' tl' s' /\ suffix (jcur s') = [0].
 Proof.
-  induction 1 as [pn|pn ty T rest cls Hre Hcls Htxt Hnt Hpn Hstop Hrest IH]; intros s Hinv Hsuf.
-  - exists s, pn. cbn [length next_n map]. auto.
+  induction 1 as [pn lev tl|pn lev tl lev' tl' ty T rest cls Hre Hcls Htxt Hnt Hpn Hstep Hstop Hrest IH
+                 |pn lev tl lev' tl' ty ty0 body rest Hk Hre Hstep Hrest IH]; intros s Hinv Hsuf.
+  - exists s, pn, lev, tl. cbn [length next_n map]. auto.
   - cbn [length next_n map fst snd].
     assert (Hsuf' : suffix (jcur s) = T ++ (texts rest ++ [0])).
     { rewrite Hsuf. unfold texts. cbn [map concat snd]. rewrite <- app_assoc. reflexivity. }
     assert (HR' : texts rest ++ [0] <> []) by (destruct (texts rest); discriminate).
-    destruct (next_extend s pn ty T (texts rest ++ [0]) cls Hre Hcls Htxt Hnt Hinv Hpn Hsuf' HR' Hstop) as (s1 & Hn & Hinv1 & Hsuf1).
+    destruct (next_extend s pn lev tl lev' tl' ty T (texts rest ++ [0]) cls Hre Hcls Htxt Hnt Hinv Hstep Hpn Hsuf' HR' Hstop)
+      as (s1 & Hn & Hinv1 & Hsuf1).
     rewrite Hn. cbn [rbind].
-    destruct (IH s1 Hinv1 Hsuf1) as (s2 & pn2 & Hn2 & Hinv2 & Hsuf2). rewrite Hn2. cbn [rbind].
-    exists s2, pn2. auto.
+    destruct (IH s1 Hinv1 Hsuf1) as (s2 & pn2 & lev2 & tl2 & Hn2 & Hinv2 & Hsuf2). rewrite Hn2. cbn [rbind].
+    exists s2, pn2, lev2, tl2. auto.
+  - cbn [length next_n map fst snd].
+    assert (Hsuf' : suffix (jcur s) = (125 :: body) ++ (texts rest ++ [0])).
+    { rewrite Hsuf. unfold texts. cbn [map concat snd]. rewrite <- app_assoc. reflexivity. }
+    assert (HR' : texts rest ++ [0] <> []) by (destruct (texts rest); discriminate).
+    destruct (next_cont s pn lev tl lev' tl' ty ty0 body (texts rest ++ [0]) Hk Hre Hinv Hstep Hsuf' HR')
+      as (s1 & Hn & Hinv1 & Hsuf1).
+    rewrite Hn. cbn [rbind].
+    destruct (IH s1 Hinv1 Hsuf1) as (s2 & pn2 & lev2 & tl2 & Hn2 & Hinv2 & Hsuf2). rewrite Hn2. cbn [rbind].
+    exists s2, pn2, lev2, tl2. auto.
 Qed.
 
 (* C06, classes proved so far: the lexer returns exactly the token sequence *)
-Lemma jslex_token_sequences_partial_proof ts : seq_ok false ts ->
+Lemma jslex_token_sequences_partial_proof ts : seq_ok false 0 [] ts ->
   exists s', next_n id_start id_cont is_zs (length ts) (js_init (texts ts)) =
                Ok (map (fun t => (fst t, Some (snd t))) ts, s') /\
     at_end (jcur s') = true /\ lstart (jcur s') = lpos (jcur s').
 Proof.
   intros H.
-  destruct (seq_run false ts H (js_init (texts ts))) as (s' & pn' & Hn & (Hw & Hst & _) & Hsuf).
+  destruct (seq_run false 0 [] ts H (js_init (texts ts))) as (s' & pn' & lev' & tl' & Hn & (Hw & Hst & _) & Hsuf).
   - unfold seq_inv. split; [apply js_init_wf|]. cbn. auto.
   - reflexivity.
   - exists s'. split; [assumption|]. split; [|assumption].
@@ -506,16 +651,27 @@ Qed.
 
 End SeqNext.
 
-(* non-vacuity: a 'x'/*c*/`t`>>>= LF if(0x1F_fn;1.5e+3//c CR LF with no class for non-ASCII runes *)
-Example ex_seq_ok : seq_ok nocls nocls nocls false
+(* non-vacuity: a 'x'/*c*/`t`>>>= LF if(0x1F_fn;1.5e+3//c CR LF `a${{x}}b${`n${1}`}c`; with no class for
+   non-ASCII runes: nested templates, a block inside a substitution, all literal kinds *)
+Example ex_seq_ok : seq_ok nocls nocls nocls false 0 []
   [(IdentifierToken, [97]); (WhitespaceToken, [32]); (StringToken, [39; 120; 39]);
    (CommentToken, [47; 42; 99; 42; 47]); (TemplateToken, [96; 116; 96]);
    (GtGtGtEqToken, [62; 62; 62; 61]); (LineTerminatorToken, [10]); (2068, [105; 102]); (OpenParenToken, [40]);
    (HexadecimalToken, [48; 120; 49; 70; 95; 102; 110]); (SemicolonToken, [59]);
-   (DecimalToken, [49; 46; 53; 101; 43; 51]); (CommentToken, [47; 47; 99]); (LineTerminatorToken, [13; 10])].
+   (DecimalToken, [49; 46; 53; 101; 43; 51]); (CommentToken, [47; 47; 99]); (LineTerminatorToken, [13; 10]);
+   (TemplateStartToken, [96; 97; 36; 123]); (OpenBraceToken, [123]); (IdentifierToken, [120]); (CloseBraceToken, [125]);
+   (TemplateMiddleToken, [125; 98; 36; 123]); (TemplateStartToken, [96; 110; 36; 123]); (IntegerToken, [49]);
+   (TemplateEndToken, [125; 96]); (TemplateEndToken, [125; 99; 96]); (SemicolonToken, [59])].
 Proof.
-  repeat (eapply sq_cons; [unfold relexes; vm_compute; eexists; split; [reflexivity|split; reflexivity]
-                          | reflexivity | | reflexivity | | | ]); try apply sq_nil;
-    cbn [text_ok stop_for follower texts map concat snd app hd is_num]; unfold op_stop;
-    repeat split; try lia; try reflexivity; try discriminate; try (intros; discriminate); try (left; reflexivity); try (right; reflexivity); try (right; left; reflexivity).
+  Ltac ex_side := cbn [text_ok stop_for follower texts map concat snd app hd is_num punct1]; unfold op_stop;
+    repeat split; try lia; try reflexivity; try discriminate; try (intros; discriminate);
+    try (left; reflexivity); try (right; reflexivity); try (right; left; reflexivity).
+  Ltac ex_tok := eapply sq_cons;
+    [unfold relexes; vm_compute; eexists; split; [reflexivity|split; reflexivity]
+    | reflexivity | ex_side | reflexivity | ex_side | reflexivity | ex_side | ].
+  Ltac ex_cont t0 := eapply sq_cont with (ty0 := t0);
+    [ first [left; split; reflexivity | right; split; reflexivity]
+    | unfold relexes; vm_compute; eexists; split; [reflexivity|split; reflexivity]
+    | reflexivity | ].
+  do 18 ex_tok. ex_cont TemplateStartToken. do 2 ex_tok. ex_cont TemplateToken. ex_cont TemplateToken. ex_tok. apply sq_nil.
 Qed.
